@@ -203,6 +203,34 @@ def rule_lang_slot_eval(chk):
                     k = [i for i in range(min(len(got), len(want))) if got[i] != want[i]]
                     bad.setdefault(key, "%s: g%d gets explicit (group, slot) %s, its own declarator says %s - a resource without an explicit group no longer goes to the pipeline's default group" % (
                         text, k[0], got[k[0]], want[k[0]]) if k else "%s registers %d globals" % (text, len(got)))
+    # constant buffers: the register annotation and the attribute overrides of the cbuffer itself
+    cbf = f.fn("parse_rootdefinition_constantbuffer", "rssl_typer")
+    if cbf:
+        for ann in anns:
+            for idx_over, grp_over in ((None, None), (7, None), (None, 6)):
+                regs = []
+                ext = {"parse_attributes_for_global": lambda a, io=idx_over, go=grp_over: ok(I.Enum("GlobalAttributeResult", None, {"binding_index_override": opt(io), "binding_group_override": opt(go), "is_bindless": False})),
+                       "get_current_namespace": lambda a: opt(None), "insert_cbuffer": lambda a: ok(())}
+                las = [] if ann is None else [I.Enum("LocationAnnotation", "Register", {"0": I.Enum("Register", None, {
+                    "slot": opt(I.Enum("RegisterSlot", None, {"slot_type": I.Enum("RegisterType", "B"), "index": ann[0]}) if ann[0] is not None else None), "space": opt(ann[1])})})]
+                cb = I.Enum("ConstantBuffer", None, {"name": loc("CB"), "members": [], "location_annotations": las, "attributes": []})
+                ctx = I.Enum("Context", None, {"module": I.Enum("Module", None, {"cbuffer_registry": regs, "type_registry": I.Opaque("type registry")})})
+                try:
+                    r = I.Interp(f, max_depth=6, extern=ext).apply(cbf, [cb, ctx])
+                except I.Unknown as e:
+                    if "panicking" in str(e):
+                        bad.setdefault("cbuffer", "parse_rootdefinition_constantbuffer aborts on `cbuffer CB%s` (%s)" % (show(ann).replace("t", "b", 1), str(e)[:60]))
+                        continue
+                    chk.note("C06.lang: parse_rootdefinition_constantbuffer is not readable (%s); the value-origin rule decides" % str(e)[:80])
+                    break
+                n += 1
+                flat = lambda o: o.fields["0"] if isinstance(o, I.Enum) and o.variant == "Some" else None
+                got = (flat(regs[0].fields["lang_binding"].fields["set"]), flat(regs[0].fields["lang_binding"].fields["index"])) if len(regs) == 1 else None
+                want = ((grp_over if grp_over is not None else (ann[1] if ann else None)), (idx_over if idx_over is not None else (ann[0] if ann else None)))
+                if not (isinstance(r, I.Enum) and r.variant == "Ok") or got != want:
+                    bad.setdefault("cbuffer", "`cbuffer CB%s`%s gets explicit (group, slot) %s, must be %s" % (
+                        show(ann).replace("t", "b", 1), "" if (idx_over, grp_over) == (None, None) else " with attribute override (index %s, group %s)" % (idx_over, grp_over), got, want))
+        chk.ob("C06.lang/cbuffer", "cbuffer" not in bad, bad.get("cbuffer") or "a constant buffer gets the binding of its own register annotation, overridden only by the attributes", where(cbf))
     for key in ("1-declarator", "2-declarator", "3-declarator", "1-declarator/override", "2-declarator/override", "3-declarator/override", "aborts"):
         if key == "aborts" and key not in bad:
             continue
